@@ -41,6 +41,9 @@ import (
 // Byte strings travel "q-encoded": bytes in [A-Za-z0-9._:*/\-\[\]] literally, every other
 // byte as %XX (upper-case hex); readable in replays, unambiguous with the separators used.
 //
+// The streams c15.qualify, c15.addr, c15.sites, c15.activate and c15.redirect take a leading field `<http>/<https>`: the configured
+// HTTP / HTTPS ports (certmagic.HTTPPort / HTTPSPort, i.e. the flags -http-port / -https-port) under which the case is evaluated.
+//
 //   c15.host      hostq                       -> L=<IsLoopback> I=<IsInternal> Q=<SubjectQualifiesForPublicCert> ip=<net.ParseIP(host).String() or ->
 //   c15.qualify   scheme host port listen bits email
 //                    bits = manual selfsigned ondemand manager  (0/1 each)
@@ -101,6 +104,85 @@ func c15UnQ(s string) string {
 		}
 	}
 	return b.String()
+}
+
+// ---- the configured HTTP / HTTPS ports (certmagic.HTTPPort, certmagic.HTTPSPort: the -http-port / -https-port flags) ----
+//
+// They are process-global.  Cases that use the same pair may run concurrently; a case with another pair waits until the
+// running ones are done, then switches the globals.  The stream's Teardown puts the defaults back.
+
+var c15Ports struct {
+	mu         sync.Mutex
+	cond       *sync.Cond
+	http, tls  int
+	active     int
+	defHTTP    int
+	defHTTPS   int
+	haveDefObs bool
+}
+
+func c15ParsePorts(s string) (int, int, bool) {
+	var h, t int
+	if n, err := fmt.Sscanf(s, "%d/%d", &h, &t); n != 2 || err != nil || h <= 0 || t <= 0 || h > 65535 || t > 65535 {
+		return 0, 0, false
+	}
+	return h, t, true
+}
+
+func c15AcquirePorts(h, t int) {
+	c15Ports.mu.Lock()
+	if c15Ports.cond == nil {
+		c15Ports.cond = sync.NewCond(&c15Ports.mu)
+	}
+	if !c15Ports.haveDefObs {
+		c15Ports.defHTTP, c15Ports.defHTTPS, c15Ports.haveDefObs = certmagic.HTTPPort, certmagic.HTTPSPort, true
+	}
+	for c15Ports.active > 0 && (c15Ports.http != h || c15Ports.tls != t) {
+		c15Ports.cond.Wait()
+	}
+	if c15Ports.active == 0 {
+		c15Ports.http, c15Ports.tls = h, t
+		certmagic.HTTPPort, certmagic.HTTPSPort = h, t
+	}
+	c15Ports.active++
+	c15Ports.mu.Unlock()
+}
+
+func c15ReleasePorts() {
+	c15Ports.mu.Lock()
+	c15Ports.active--
+	if c15Ports.active == 0 {
+		c15Ports.cond.Broadcast()
+	}
+	c15Ports.mu.Unlock()
+}
+
+func c15RestorePorts() {
+	c15Ports.mu.Lock()
+	if c15Ports.haveDefObs {
+		certmagic.HTTPPort, certmagic.HTTPSPort = c15Ports.defHTTP, c15Ports.defHTTPS
+	}
+	c15Ports.mu.Unlock()
+}
+
+// c15WithPorts runs eval on the fields after the leading ports field, with the globals set.
+func c15WithPorts(eval func(f []string) (string, []string)) func(f []string) (string, []string) {
+	return func(f []string) (string, []string) {
+		if len(f) < 1 {
+			return "bad-case", nil
+		}
+		h, t, ok := c15ParsePorts(f[0])
+		if !ok {
+			return "bad-case", nil
+		}
+		c15AcquirePorts(h, t)
+		defer c15ReleasePorts()
+		out, tags := eval(f[1:])
+		if h != 80 || t != 443 {
+			tags = append(tags, "moved-ports")
+		}
+		return out, tags
+	}
 }
 
 func c15Bit(b bool) string {
@@ -746,10 +828,10 @@ func c15RedirectEval(f []string) (string, []string) {
 
 func init() {
 	hx.Register(&hx.Stream{ID: "C15", Name: "c15.host", Gen: c15HostGen, Eval: c15HostEval})
-	hx.Register(&hx.Stream{ID: "C15", Name: "c15.qualify", Gen: c15QualifyGen, Eval: c15QualifyEval})
-	hx.Register(&hx.Stream{ID: "C15", Name: "c15.addr", Gen: c15AddrGen, Eval: c15AddrEval})
-	hx.Register(&hx.Stream{ID: "C15", Name: "c15.sites", Gen: c15SitesGen, Eval: c15SitesEval, Setup: c15Setup, Teardown: c15Teardown})
+	hx.Register(&hx.Stream{ID: "C15", Name: "c15.qualify", Gen: c15QualifyGen, Eval: c15WithPorts(c15QualifyEval), Teardown: c15RestorePorts})
+	hx.Register(&hx.Stream{ID: "C15", Name: "c15.addr", Gen: c15AddrGen, Eval: c15WithPorts(c15AddrEval), Teardown: c15RestorePorts})
+	hx.Register(&hx.Stream{ID: "C15", Name: "c15.sites", Gen: c15SitesGen, Eval: c15WithPorts(c15SitesEval), Setup: c15Setup, Teardown: func() { c15RestorePorts(); c15Teardown() }})
 	hx.Register(&hx.Stream{ID: "C15", Name: "c15.inspect", Gen: c15InspectGen, Eval: c15InspectEval, Setup: c15Setup, Teardown: c15Teardown})
-	hx.Register(&hx.Stream{ID: "C15", Name: "c15.activate", Gen: c15ActivateGen, Eval: c15ActivateEval, Setup: c15ActivateSetup, Teardown: c15ActivateTeardown})
-	hx.Register(&hx.Stream{ID: "C15", Name: "c15.redirect", Gen: c15RedirectGen, Eval: c15RedirectEval, Setup: c15Setup, Teardown: c15Teardown})
+	hx.Register(&hx.Stream{ID: "C15", Name: "c15.activate", Gen: c15ActivateGen, Eval: c15WithPorts(c15ActivateEval), Setup: c15ActivateSetup, Teardown: func() { c15RestorePorts(); c15ActivateTeardown() }})
+	hx.Register(&hx.Stream{ID: "C15", Name: "c15.redirect", Gen: c15RedirectGen, Eval: c15WithPorts(c15RedirectEval), Setup: c15Setup, Teardown: func() { c15RestorePorts(); c15Teardown() }})
 }
